@@ -38,8 +38,12 @@ Ltac special x := (apply identc_not; [assumption | vm_compute; reflexivity]).
 Definition esc_str (c : ascii) : bytes := if Ascii.eqb c LF then [BS; "n"] else [c].
 
 Definition lit1 (f : form) (p : piece) : bytes :=
-  if is_raw f then flat_map esc_raw (spell1 p)
-  else match p with PChar c => esc_str c | _ => spell1 p end.
+  match p with
+  | PBom => BOM_ESC
+  | _ =>
+    if is_raw f then flat_map esc_raw (spell1 p)
+    else match p with PChar c => esc_str c | _ => spell1 p end
+  end.
 
 Definition fmt1 (f : form) (p : piece) : bytes :=
   match p with
@@ -47,6 +51,7 @@ Definition fmt1 (f : form) (p : piece) : bytes :=
   | PEsc c => [BS; c]
   | PBrace c => [c]
   | PHole _ => [PCT; "s"]
+  | PBom => BOM_ESC
   end.
 
 Definition uq1 (p : piece) : bytes :=
@@ -55,31 +60,86 @@ Definition uq1 (p : piece) : bytes :=
   | PEsc c => [esc_meaning c]
   | PBrace c => [c]
   | PHole _ => [PCT; "s"]
+  | PBom => BOM
   end.
 
 Definition holes (ps : list piece) : list bytes :=
   flat_map (fun p => match p with PHole n => [n] | _ => [] end) ps.
-
-Definition uq_app (v : bytes) (r : uq) : uq :=
-  match r with UqOk w => UqOk (v ++ w) | x => x end.
 
 Lemma lit1_nonraw_esc : forall f c, is_raw f = false -> lit1 f (PEsc c) = spell1 (PEsc c).
 Proof. intros f c H. unfold lit1. rewrite H. reflexivity. Qed.
 
 (** ---------------------------------------------------------------- layer 1 *)
 
+(** the next two bytes are the rest of a byte order mark *)
+Definition starts_bbbf (l : bytes) : bool :=
+  match l with c2 :: c3 :: _ => Ascii.eqb c2 BB && Ascii.eqb c3 BF | _ => false end.
+
+Definition safe_head (tail : bytes) : bool :=
+  match tail with [] => true | c :: _ => negb (Ascii.eqb c BB) && negb (Ascii.eqb c BF) end.
+
+Lemma nosplit_tail : forall p ps, nosplit (p :: ps) = true -> nosplit ps = true.
+Proof. intros p ps H. cbn [nosplit] in H. apply andb_prop in H. tauto. Qed.
+
+(** an ordinary character that is the first byte of a byte order mark is not followed by the other two *)
+Lemma nosplit_lookahead : forall c ps tail,
+  nosplit (PChar c :: ps) = true -> safe_head tail = true ->
+  Ascii.eqb c EF && starts_bbbf (spell ps ++ tail) = false.
+Proof.
+  intros c ps tail H Ht. destruct (Ascii.eqb c EF) eqn:Ec; [|reflexivity]. simpl.
+  cbn [nosplit] in H. apply andb_prop in H. destruct H as [H _]. rewrite Ec in H.
+  unfold spell.
+  destruct ps as [|p1 ps].
+  - simpl. destruct tail as [|t1 [|t2 tail]]; simpl in *; try reflexivity.
+    apply andb_prop in Ht. destruct Ht as [Ht _]. apply negb_true_iff in Ht. rewrite Ht. reflexivity.
+  - destruct p1 as [c2|c2|c2|n|]; simpl; try reflexivity;
+      try (destruct (((n ++ [RBR]) ++ flat_map spell1 ps) ++ tail); reflexivity).
+    destruct (Ascii.eqb c2 BB) eqn:E2; [|destruct (flat_map spell1 ps ++ tail); reflexivity].
+    destruct ps as [|p2 ps].
+    + simpl. destruct tail as [|t1 tail]; simpl in *; [reflexivity|].
+      apply andb_prop in Ht. destruct Ht as [_ Ht]. apply negb_true_iff in Ht. rewrite Ht. reflexivity.
+    + destruct p2 as [c3|c3|c3|n|]; simpl; try reflexivity.
+      simpl in H. apply negb_true_iff in H. exact H.
+Qed.
+
+Lemma scan_string_char : forall c s,
+  Ascii.eqb c DQ = false -> Ascii.eqb c BS = false ->
+  Ascii.eqb c EF && starts_bbbf s = false ->
+  scan_string (c :: s) =
+  match scan_string s with Some (v, r) => Some (esc_str c ++ v, r) | None => None end.
+Proof.
+  intros c s H1 H2 H3. cbn [scan_string]. rewrite H1, H2. unfold esc_str.
+  destruct (Ascii.eqb c LF) eqn:E3.
+  - destruct (scan_string s) as [[v r]|]; reflexivity.
+  - destruct s as [|c2 [|c3 r']]; try (destruct (scan_string _) as [[v r]|]; reflexivity).
+    simpl in H3. rewrite <- andb_assoc. rewrite H3.
+    destruct (scan_string (c2 :: c3 :: r')) as [[v r]|]; reflexivity.
+Qed.
+
+Lemma scan_string_bom : forall s,
+  scan_string (BOM ++ s) =
+  match scan_string s with Some (v, r) => Some (BOM_ESC ++ v, r) | None => None end.
+Proof. intros s. reflexivity. Qed.
+
+Lemma scan_string_pair : forall c s,
+  scan_string (BS :: c :: s) =
+  match scan_string s with Some (v, r) => Some (BS :: c :: v, r) | None => None end.
+Proof. intros. reflexivity. Qed.
+
+(** a run of bytes none of which is a quote, a backslash or the first byte of a byte order mark *)
 Lemma scan_string_plain : forall x s,
-  forallb (fun c => negb (Ascii.eqb c DQ) && negb (Ascii.eqb c BS)) x = true ->
+  forallb (fun c => negb (Ascii.eqb c DQ) && negb (Ascii.eqb c BS) && negb (Ascii.eqb c EF)) x = true ->
   scan_string (x ++ s) =
   match scan_string s with Some (v, r) => Some (flat_map esc_str x ++ v, r) | None => None end.
 Proof.
-  induction x as [|c x IH]; intros s H; simpl.
-  - destruct (scan_string s) as [[v r]|]; reflexivity.
+  induction x as [|c x IH]; intros s H.
+  - simpl. destruct (scan_string s) as [[v r]|]; reflexivity.
   - simpl in H. apply andb_prop in H. destruct H as [Hc Hx].
-    apply andb_prop in Hc. destruct Hc as [H1 H2].
-    apply negb_true_iff in H1. apply negb_true_iff in H2. rewrite H1, H2.
-    rewrite (IH s Hx). unfold esc_str.
-    destruct (Ascii.eqb c LF); destruct (scan_string s) as [[v r]|]; reflexivity.
+    apply andb_prop in Hc. destruct Hc as [Hc H3]. apply andb_prop in Hc. destruct Hc as [H1 H2].
+    apply negb_true_iff in H1. apply negb_true_iff in H2. apply negb_true_iff in H3.
+    simpl app. rewrite scan_string_char by (try assumption; rewrite H3; reflexivity).
+    rewrite (IH s Hx). simpl flat_map.
+    destruct (scan_string s) as [[v r]|]; [rewrite app_assoc|]; reflexivity.
 Qed.
 
 Lemma esc_str_ident : forall n, forallb identc n = true -> flat_map esc_str n = n.
@@ -89,110 +149,136 @@ Proof.
   assert (Ascii.eqb c LF = false) as -> by special c. reflexivity.
 Qed.
 
-Lemma scan_string_pair : forall c s,
-  scan_string (BS :: c :: s) =
-  match scan_string s with Some (v, r) => Some (BS :: c :: v, r) | None => None end.
-Proof. intros. reflexivity. Qed.
-
-Lemma scan_raw_body : forall x rest,
-  forallb (fun c => negb (Ascii.eqb c BQ)) x = true ->
-  scan_raw (x ++ BQ :: rest) = Some (flat_map esc_raw x, rest).
-Proof.
-  induction x as [|c x IH]; intros rest H; simpl.
-  - reflexivity.
-  - simpl in H. apply andb_prop in H. destruct H as [H1 H2].
-    apply negb_true_iff in H1. rewrite H1. rewrite (IH rest H2). reflexivity.
-Qed.
-
 Lemma ident_plain : forall n,
   forallb identc n = true ->
-  forallb (fun c => negb (Ascii.eqb c DQ) && negb (Ascii.eqb c BS)) n = true.
+  forallb (fun c => negb (Ascii.eqb c DQ) && negb (Ascii.eqb c BS) && negb (Ascii.eqb c EF)) n = true.
 Proof.
   induction n as [|c n IH]; intros H; simpl in *; [reflexivity|].
   apply andb_prop in H. destruct H as [H1 H2].
   rewrite (IH H2), andb_true_r.
   assert (Ascii.eqb c DQ = false) as -> by special c.
-  assert (Ascii.eqb c BS = false) as -> by special c. reflexivity.
+  assert (Ascii.eqb c BS = false) as -> by special c.
+  assert (Ascii.eqb c EF = false) as -> by special c. reflexivity.
 Qed.
 
 Lemma ident_no_bq : forall n,
-  forallb identc n = true -> forallb (fun c => negb (Ascii.eqb c BQ)) n = true.
+  forallb identc n = true ->
+  forallb (fun c => negb (Ascii.eqb c BQ) && negb (Ascii.eqb c EF)) n = true.
 Proof.
   induction n as [|c n IH]; intros H; simpl in *; [reflexivity|].
   apply andb_prop in H. destruct H as [H1 H2]. rewrite (IH H2), andb_true_r.
-  assert (Ascii.eqb c BQ = false) as -> by special c. reflexivity.
+  assert (Ascii.eqb c BQ = false) as -> by special c.
+  assert (Ascii.eqb c EF = false) as -> by special c. reflexivity.
 Qed.
 
 Lemma forallb_app' : forall (A : Type) (p : A -> bool) x y,
   forallb p x = true -> forallb p y = true -> forallb p (x ++ y) = true.
 Proof. intros. rewrite forallb_app. rewrite H, H0. reflexivity. Qed.
 
-(** the ordinary characters, escapes and holes of the quoted forms contain no bare quote / backslash *)
+Lemma ok_hole_ident : forall f e n, ok_piece f e (PHole n) = true -> forallb identc n = true.
+Proof.
+  intros f e n Hp. unfold ok_piece in Hp. apply andb_prop in Hp. destruct Hp as [Hp _].
+  apply andb_prop in Hp. destruct Hp as [_ Hp]. apply valid_ident_chars. exact Hp.
+Qed.
+
+(** the quoted forms *)
 Lemma scan_string_spell : forall f e ps rest,
   is_raw f = false ->
-  forallb (ok_piece f e) ps = true ->
+  forallb (ok_piece f e) ps = true -> nosplit ps = true ->
   scan_string (spell ps ++ DQ :: rest) = Some (flat_map (lit1 f) ps, rest).
 Proof.
-  intros f e ps rest Hf. induction ps as [|p ps IH]; intros H.
+  intros f e ps rest Hf. induction ps as [|p ps IH]; intros H Hns.
   - simpl. reflexivity.
   - simpl in H. apply andb_prop in H. destruct H as [Hp Hps].
-    specialize (IH Hps). unfold spell in *. simpl flat_map. rewrite <- app_assoc.
-    unfold lit1 at 1. rewrite Hf.
-    destruct p as [c|c|c|n]; cbn [spell1].
+    specialize (IH Hps (nosplit_tail _ _ Hns)). unfold spell in *. simpl flat_map. rewrite <- app_assoc.
+    destruct p as [c|c|c|n|]; cbn [spell1].
     + (* PChar *)
       assert (Ascii.eqb c DQ = false /\ Ascii.eqb c BS = false) as [H1 H2].
       { unfold ok_piece, ok_char in Hp. destruct f; try discriminate; simpl in Hp;
         apply andb_prop in Hp; destruct Hp as [_ Hp]; apply negb_true_iff in Hp;
         repeat (apply orb_false_iff in Hp; destruct Hp as [Hp ?]); auto. }
-      rewrite (scan_string_plain [c]) by (simpl; rewrite H1, H2; reflexivity).
-      rewrite IH. simpl. rewrite app_nil_r. reflexivity.
-    + simpl. rewrite IH. reflexivity.
-    + simpl. rewrite IH. reflexivity.
+      simpl app. rewrite scan_string_char; try assumption.
+      * rewrite IH. unfold lit1. rewrite Hf. reflexivity.
+      * apply (nosplit_lookahead c ps (DQ :: rest) Hns). reflexivity.
+    + simpl app. rewrite scan_string_pair, IH. unfold lit1. rewrite Hf. reflexivity.
+    + simpl app. rewrite scan_string_pair, IH. unfold lit1. rewrite Hf. reflexivity.
     + (* PHole *)
-      assert (forallb identc n = true) as Hn.
-      { unfold ok_piece in Hp. apply andb_prop in Hp. destruct Hp as [Hp _].
-        apply andb_prop in Hp. destruct Hp as [_ Hp]. apply valid_ident_chars. exact Hp. }
-      change (scan_string ((LBR :: n ++ [RBR]) ++ flat_map spell1 ps ++ DQ :: rest))
-        with (scan_string (([LBR] ++ n ++ [RBR]) ++ flat_map spell1 ps ++ DQ :: rest)).
+      pose proof (ok_hole_ident f e n Hp) as Hn.
+      change ((LBR :: n ++ [RBR]) ++ flat_map spell1 ps ++ DQ :: rest)
+        with (([LBR] ++ n ++ [RBR]) ++ flat_map spell1 ps ++ DQ :: rest).
       rewrite scan_string_plain.
-      * rewrite IH. rewrite !flat_map_app, (esc_str_ident n Hn). reflexivity.
+      * rewrite IH. rewrite !flat_map_app, (esc_str_ident n Hn). unfold lit1. rewrite Hf. reflexivity.
       * simpl. rewrite forallb_app, (ident_plain n Hn). reflexivity.
+    + (* PBom *)
+      rewrite scan_string_bom, IH. reflexivity.
 Qed.
 
-Lemma flat_map_flat_map : forall (A B C : Type) (g : A -> list B) (h : B -> list C) l,
-  flat_map h (flat_map g l) = flat_map (fun a => flat_map h (g a)) l.
+(** the raw forms *)
+Lemma scan_raw_char : forall c s,
+  Ascii.eqb c BQ = false -> Ascii.eqb c EF && starts_bbbf s = false ->
+  scan_raw (c :: s) =
+  match scan_raw s with Some (v, r) => Some (esc_raw c ++ v, r) | None => None end.
 Proof.
-  induction l as [|a l IH]; simpl; [reflexivity|]. rewrite flat_map_app, IH. reflexivity.
+  intros c s H1 H3. cbn [scan_raw]. rewrite H1.
+  destruct s as [|c2 [|c3 r']]; try reflexivity.
+  simpl in H3. rewrite <- andb_assoc. rewrite H3. reflexivity.
 Qed.
 
-Lemma spell_no_bq : forall f e ps,
-  is_raw f = true -> forallb (ok_piece f e) ps = true ->
-  forallb (fun c => negb (Ascii.eqb c BQ)) (spell ps) = true.
+Lemma scan_raw_bom : forall s,
+  scan_raw (BOM ++ s) =
+  match scan_raw s with Some (v, r) => Some (BOM_ESC ++ v, r) | None => None end.
+Proof. intros s. reflexivity. Qed.
+
+Lemma scan_raw_plain : forall x s,
+  forallb (fun c => negb (Ascii.eqb c BQ) && negb (Ascii.eqb c EF)) x = true ->
+  scan_raw (x ++ s) =
+  match scan_raw s with Some (v, r) => Some (flat_map esc_raw x ++ v, r) | None => None end.
 Proof.
-  intros f e ps Hf. induction ps as [|p ps IH]; intros H; [reflexivity|].
-  simpl in H. apply andb_prop in H. destruct H as [Hp Hps]. unfold spell. simpl.
-  apply forallb_app'; [|apply IH; exact Hps].
-  destruct p as [c|c|c|n]; simpl.
-  - unfold ok_piece, ok_char in Hp. destruct f; try discriminate; simpl in Hp;
-    apply andb_prop in Hp; destruct Hp as [_ Hp]; apply negb_true_iff in Hp.
-    + rewrite Hp. reflexivity.
-    + apply orb_false_iff in Hp. destruct Hp as [Hp _]. rewrite Hp. reflexivity.
-  - unfold ok_piece in Hp. rewrite Hf in Hp. discriminate.
-  - unfold ok_piece in Hp. destruct f; discriminate.
-  - assert (forallb identc n = true) as Hn.
-    { unfold ok_piece in Hp. apply andb_prop in Hp. destruct Hp as [Hp _].
-      apply andb_prop in Hp. destruct Hp as [_ Hp]. apply valid_ident_chars. exact Hp. }
-    simpl. rewrite forallb_app, (ident_no_bq n Hn). reflexivity.
+  induction x as [|c x IH]; intros s H.
+  - simpl. destruct (scan_raw s) as [[v r]|]; reflexivity.
+  - simpl in H. apply andb_prop in H. destruct H as [Hc Hx].
+    apply andb_prop in Hc. destruct Hc as [H1 H3].
+    apply negb_true_iff in H1. apply negb_true_iff in H3.
+    simpl app. rewrite scan_raw_char by (try assumption; rewrite H3; reflexivity).
+    rewrite (IH s Hx). simpl flat_map.
+    destruct (scan_raw s) as [[v r]|]; [rewrite app_assoc|]; reflexivity.
+Qed.
+
+Lemma scan_raw_spell : forall f e ps rest,
+  is_raw f = true ->
+  forallb (ok_piece f e) ps = true -> nosplit ps = true ->
+  scan_raw (spell ps ++ BQ :: rest) = Some (flat_map (lit1 f) ps, rest).
+Proof.
+  intros f e ps rest Hf. induction ps as [|p ps IH]; intros H Hns.
+  - reflexivity.
+  - simpl in H. apply andb_prop in H. destruct H as [Hp Hps].
+    specialize (IH Hps (nosplit_tail _ _ Hns)). unfold spell in *. simpl flat_map. rewrite <- app_assoc.
+    destruct p as [c|c|c|n|]; cbn [spell1].
+    + assert (Ascii.eqb c BQ = false) as H1.
+      { unfold ok_piece, ok_char in Hp. destruct f; try discriminate; simpl in Hp;
+        apply andb_prop in Hp; destruct Hp as [_ Hp]; apply negb_true_iff in Hp;
+        repeat (apply orb_false_iff in Hp; destruct Hp as [Hp ?]); auto. }
+      simpl app. rewrite scan_raw_char; try assumption.
+      * rewrite IH. unfold lit1. rewrite Hf. simpl. rewrite app_nil_r. reflexivity.
+      * apply (nosplit_lookahead c ps (BQ :: rest) Hns). reflexivity.
+    + unfold ok_piece in Hp. rewrite Hf in Hp. discriminate.
+    + unfold ok_piece in Hp. destruct f; discriminate.
+    + pose proof (ok_hole_ident f e n Hp) as Hn.
+      change ((LBR :: n ++ [RBR]) ++ flat_map spell1 ps ++ BQ :: rest)
+        with (([LBR] ++ n ++ [RBR]) ++ flat_map spell1 ps ++ BQ :: rest).
+      rewrite scan_raw_plain.
+      * rewrite IH. unfold lit1. rewrite Hf. reflexivity.
+      * simpl. rewrite forallb_app, (ident_no_bq n Hn). reflexivity.
+    + rewrite scan_raw_bom, IH. reflexivity.
 Qed.
 
 Theorem scan_spell : forall f e ps rest,
-  forallb (ok_piece f e) ps = true ->
+  forallb (ok_piece f e) ps = true -> nosplit ps = true ->
   scan f (spell ps ++ close f :: rest) = Some (flat_map (lit1 f) ps, rest).
 Proof.
-  intros f e ps rest H. unfold scan, close, lit1. destruct (is_raw f) eqn:Hf.
-  - rewrite scan_raw_body by (eapply spell_no_bq; eauto).
-    unfold spell. rewrite flat_map_flat_map. reflexivity.
-  - rewrite (scan_string_spell f e ps rest Hf H). unfold lit1. rewrite Hf. reflexivity.
+  intros f e ps rest H Hns. unfold scan, close. destruct (is_raw f) eqn:Hf.
+  - apply (scan_raw_spell f e); assumption.
+  - apply (scan_string_spell f e); assumption.
 Qed.
 
 (** ---------------------------------------------------------------- layer 2: ParseSInterP *)
@@ -229,7 +315,7 @@ Lemma psi_piece : forall f e p s fm vs,
   Some (fmt1 f p ++ fm, match p with PHole n => n :: vs | _ => vs end).
 Proof.
   intros f e p s fm vs Hi Hp Hs.
-  destruct p as [c|c|c|n].
+  destruct p as [c|c|c|n|].
   - (* PChar *)
     unfold ok_piece, ok_char in Hp. apply andb_prop in Hp. destruct Hp as [Hnul Hp].
     destruct f; try discriminate; apply negb_true_iff in Hp.
@@ -268,6 +354,8 @@ Proof.
     { unfold lit1. destruct (is_raw f); [|reflexivity]. simpl.
       rewrite flat_map_app, esc_raw_ident by exact Hn. reflexivity. }
     simpl. rewrite <- app_assoc. simpl. rewrite psi_hole by exact Hn. rewrite Hs. reflexivity.
+  - (* PBom *)
+    unfold lit1, fmt1. simpl. rewrite Hs. reflexivity.
 Qed.
 
 Theorem psi_spell : forall f e ps,
@@ -334,6 +422,9 @@ Proof.
     apply unq_plain; assumption.
 Qed.
 
+Lemma unq_bom : forall s, go_unquote (BOM_ESC ++ s) = uq_app BOM (go_unquote s).
+Proof. intros s. reflexivity. Qed.
+
 (** plain forms: the literal unquotes to the meaning *)
 Theorem unq_plain_forms : forall f e ps,
   is_interp f = false -> forallb (ok_piece f e) ps = true ->
@@ -341,13 +432,14 @@ Theorem unq_plain_forms : forall f e ps,
 Proof.
   intros f e ps Hi. induction ps as [|p ps IH]; intros H; [reflexivity|].
   simpl in H. apply andb_prop in H. destruct H as [Hp Hps]. specialize (IH Hps).
-  unfold meaning in *. simpl. destruct p as [c|c|c|n].
+  unfold meaning in *. simpl. destruct p as [c|c|c|n|].
   - simpl in Hp. rewrite unq_char by exact Hp. rewrite IH. reflexivity.
   - unfold ok_piece in Hp. apply andb_prop in Hp. destruct Hp as [Hr He].
     apply negb_true_iff in Hr. rewrite (lit1_nonraw_esc f c Hr). cbn [spell1 app].
     rewrite unq_esc by exact He. rewrite IH. reflexivity.
   - unfold ok_piece in Hp. destruct f; discriminate.
   - unfold ok_piece in Hp. rewrite Hi in Hp. discriminate.
+  - change (lit1 f PBom) with BOM_ESC. cbn [fmt1 uq1 meaning1]. rewrite unq_bom, IH. reflexivity.
 Qed.
 
 (** interpolated forms: the format unquotes piece by piece *)
@@ -357,7 +449,7 @@ Theorem unq_interp_forms : forall f e ps,
 Proof.
   intros f e ps Hi. induction ps as [|p ps IH]; intros H; [reflexivity|].
   simpl in H. apply andb_prop in H. destruct H as [Hp Hps]. specialize (IH Hps).
-  simpl. destruct p as [c|c|c|n].
+  simpl. destruct p as [c|c|c|n|].
   - simpl in Hp. cbn [fmt1 uq1]. destruct (Ascii.eqb c PCT) eqn:Ep.
     + apply Ascii.eqb_eq in Ep. subst c. cbn [app].
       rewrite !unq_plain by reflexivity. rewrite IH. reflexivity.
@@ -370,6 +462,7 @@ Proof.
     apply orb_prop in Hp. destruct Hp as [Hp|Hp]; apply Ascii.eqb_eq in Hp; subst c;
       simpl; rewrite IH; reflexivity.
   - simpl. rewrite IH. reflexivity.
+  - change (lit1 f PBom) with BOM_ESC. cbn [fmt1 uq1 meaning1]. rewrite unq_bom, IH. reflexivity.
 Qed.
 
 (** ---------------------------------------------------------------- arguments and Sprintf *)
@@ -383,7 +476,7 @@ Theorem eval_args_holes : forall f e ps,
 Proof.
   intros f e ps. induction ps as [|p ps IH]; intros H; [reflexivity|].
   simpl in H. apply andb_prop in H. destruct H as [Hp Hps]. specialize (IH Hps).
-  unfold holes in *. simpl. destruct p as [c|c|c|n]; simpl; try exact IH.
+  unfold holes in *. simpl. destruct p as [c|c|c|n|]; simpl; try exact IH.
   unfold ok_piece in Hp. apply andb_prop in Hp. destruct Hp as [Hp Hl].
   apply andb_prop in Hp. destruct Hp as [_ Hv]. rewrite Hv, IH.
   unfold hole_text. destruct (lookup e n); [reflexivity|discriminate].
@@ -401,7 +494,7 @@ Theorem sprintf_pieces : forall f e ps,
 Proof.
   intros f e ps Hi. induction ps as [|p ps IH]; intros H; [reflexivity|].
   simpl in H. apply andb_prop in H. destruct H as [Hp Hps]. specialize (IH Hps).
-  unfold meaning, holes in *. simpl. destruct p as [c|c|c|n]; simpl.
+  unfold meaning, holes in *. simpl. destruct p as [c|c|c|n|]; simpl.
   - destruct (Ascii.eqb c PCT) eqn:Ep.
     + apply Ascii.eqb_eq in Ep. subst c. simpl. rewrite IH. reflexivity.
     + simpl. rewrite Ep, IH. reflexivity.
@@ -411,15 +504,16 @@ Proof.
     apply orb_prop in Hp. destruct Hp as [Hp|Hp]; apply Ascii.eqb_eq in Hp; subst c;
       simpl; rewrite IH; reflexivity.
   - rewrite IH. reflexivity.
+  - rewrite IH. reflexivity.
 Qed.
 
 (** ---------------------------------------------------------------- the round trip *)
 
 Theorem literal_roundtrip_pieces : forall f e ps rest,
-  forallb (ok_piece f e) ps = true ->
+  forallb (ok_piece f e) ps = true -> nosplit ps = true ->
   pipeline f e (spell ps ++ close f :: rest) = (Ok (meaning e ps), rest).
 Proof.
-  intros f e ps rest H. unfold pipeline. rewrite (scan_spell f e ps rest H).
+  intros f e ps rest H Hns. unfold pipeline. rewrite (scan_spell f e ps rest H Hns).
   unfold emit. destruct (is_interp f) eqn:Hi.
   - rewrite (psi_spell f e ps Hi H). unfold run.
     rewrite (unq_interp_forms f e ps Hi H), (eval_args_holes f e ps H),
@@ -465,8 +559,16 @@ Proof.
         { apply andb_prop in Eh. destruct Eh as [_ Eh]. apply Ascii.eqb_eq in Eh. subst c.
           destruct (IH r (Some []) ps ltac:(lia) Hlex) as (n & ps' & E1 & E2).
           rewrite E1, E2. unfold spell. simpl. rewrite <- app_assoc. reflexivity. }
-        destruct (lex f r None) as [ps0|] eqn:El; [|discriminate]. inversion Hlex. subst ps.
-        unfold spell. simpl. f_equal. apply (IH r None ps0); [lia|exact El].
+        assert ((match lex f r None with Some ps0 => Some (PChar c :: ps0) | None => None end) = Some ps ->
+                spell ps = c :: r) as Hplain.
+        { intros Hp. destruct (lex f r None) as [ps0|] eqn:El; [|discriminate]. inversion Hp. subst ps.
+          unfold spell. simpl. f_equal. apply (IH r None ps0); [lia|exact El]. }
+        destruct r as [|c2 [|c3 r']]; try (apply Hplain; exact Hlex).
+        destruct (Ascii.eqb c EF && Ascii.eqb c2 BB && Ascii.eqb c3 BF) eqn:Eb3; [|apply Hplain; exact Hlex].
+        apply andb_prop in Eb3. destruct Eb3 as [Eb3 E3]. apply andb_prop in Eb3. destruct Eb3 as [E1 E2].
+        apply Ascii.eqb_eq in E1. apply Ascii.eqb_eq in E2. apply Ascii.eqb_eq in E3. subst c c2 c3.
+        destruct (lex f r' None) as [ps0|] eqn:El; [|discriminate]. inversion Hlex. subst ps.
+        unfold spell. simpl. do 3 f_equal. apply (IH r' None ps0); [simpl in Hlen; lia|exact El].
 Qed.
 
 Theorem lex_sound : forall f body ps, lex f body None = Some ps -> spell ps = body.
@@ -482,15 +584,16 @@ Theorem literal_roundtrip : forall f e body rest v,
 Proof.
   intros f e body rest v H. unfold denote in H.
   destruct (lex f body None) as [ps|] eqn:El; [|discriminate].
-  destruct (forallb (ok_piece f e) ps) eqn:Hok; [|discriminate].
+  destruct (forallb (ok_piece f e) ps && nosplit ps) eqn:Hok; [|discriminate].
+  apply andb_prop in Hok. destruct Hok as [Hok Hns].
   inversion H. subst v. rewrite <- (lex_sound f body ps El).
-  apply literal_roundtrip_pieces. exact Hok.
+  apply literal_roundtrip_pieces; assumption.
 Qed.
 
 Theorem wf_denotes : forall f e body, wf f e body = true <-> exists v, denote f e body = Some v.
 Proof.
   intros. unfold wf, denote. destruct (lex f body None) as [ps|].
-  - destruct (forallb (ok_piece f e) ps); split; intros H; try discriminate; eauto.
+  - destruct (forallb (ok_piece f e) ps && nosplit ps); split; intros H; try discriminate; eauto.
     destruct H as [v H]. discriminate.
   - split; [discriminate|]. intros [v H]. discriminate.
 Qed.
@@ -508,19 +611,34 @@ Proof.
     simpl. rewrite <- app_assoc. reflexivity.
 Qed.
 
-Theorem lex_complete : forall f e ps,
-  forallb (ok_piece f e) ps = true -> lex f (spell ps) None = Some ps.
+Lemma lex_char : forall f c r ps,
+  negb (is_raw f) && Ascii.eqb c BS = false -> is_interp f && Ascii.eqb c LBR = false ->
+  Ascii.eqb c EF && starts_bbbf r = false ->
+  lex f r None = Some ps -> lex f (c :: r) None = Some (PChar c :: ps).
 Proof.
-  intros f e ps. induction ps as [|p ps IH]; intros H; [reflexivity|].
-  simpl in H. apply andb_prop in H. destruct H as [Hp Hps]. specialize (IH Hps).
-  unfold spell in *. simpl. destruct p as [c|c|c|n]; simpl.
-  - unfold ok_piece, ok_char in Hp. apply andb_prop in Hp. destruct Hp as [_ Hp].
-    destruct f; simpl; apply negb_true_iff in Hp;
-      repeat (apply orb_false_iff in Hp; destruct Hp as [Hp ?]);
-      repeat match goal with H : Ascii.eqb c _ = false |- _ => rewrite H; clear H end;
-      rewrite ?Hp; rewrite IH; reflexivity.
-  - unfold ok_piece in Hp. apply andb_prop in Hp. destruct Hp as [Hr He]. rewrite Hr.
-    simpl. rewrite IH, He. reflexivity.
+  intros f c r ps H1 H2 H3 Hl. cbn [lex]. rewrite H1, H2, Hl.
+  destruct r as [|c2 [|c3 r']]; try reflexivity.
+  simpl in H3. rewrite <- andb_assoc. rewrite H3. reflexivity.
+Qed.
+
+Lemma lex_bom : forall f r,
+  lex f (BOM ++ r) None = match lex f r None with Some ps => Some (PBom :: ps) | None => None end.
+Proof. intros f r. destruct f; reflexivity. Qed.
+
+Theorem lex_complete : forall f e ps,
+  forallb (ok_piece f e) ps = true -> nosplit ps = true -> lex f (spell ps) None = Some ps.
+Proof.
+  intros f e ps. induction ps as [|p ps IH]; intros H Hns; [reflexivity|].
+  simpl in H. apply andb_prop in H. destruct H as [Hp Hps]. specialize (IH Hps (nosplit_tail _ _ Hns)).
+  unfold spell in *. simpl flat_map. destruct p as [c|c|c|n|]; cbn [spell1].
+  - simpl app. apply lex_char; [| |
+      pose proof (nosplit_lookahead c ps [] Hns eq_refl) as HL; unfold spell in HL;
+      rewrite app_nil_r in HL; exact HL | exact IH];
+    unfold ok_piece, ok_char in Hp; apply andb_prop in Hp; destruct Hp as [_ Hp];
+    destruct f; simpl; try reflexivity; apply negb_true_iff in Hp;
+    repeat (apply orb_false_iff in Hp; destruct Hp as [Hp ?]); assumption.
+  - unfold ok_piece in Hp. apply andb_prop in Hp. destruct Hp as [Hr He].
+    simpl. rewrite Hr. simpl. rewrite IH, He. reflexivity.
   - unfold ok_piece in Hp. destruct f; try discriminate. simpl. rewrite IH.
     assert (is_esc_letter c = false) as ->.
     { apply orb_prop in Hp. destruct Hp as [Hp|Hp]; apply Ascii.eqb_eq in Hp; subst c; reflexivity. }
@@ -529,12 +647,13 @@ Proof.
     apply andb_prop in Hp. destruct Hp as [Hi Hv].
     destruct f; try discriminate; simpl; rewrite <- app_assoc; simpl;
       rewrite (lex_hole _ n [] _ ps (valid_ident_chars n Hv) IH); reflexivity.
+  - rewrite lex_bom, IH. reflexivity.
 Qed.
 
 Corollary denote_spell : forall f e ps,
-  forallb (ok_piece f e) ps = true -> denote f e (spell ps) = Some (meaning e ps).
+  forallb (ok_piece f e) ps = true -> nosplit ps = true -> denote f e (spell ps) = Some (meaning e ps).
 Proof.
-  intros f e ps H. unfold denote. rewrite (lex_complete f e ps H), H. reflexivity.
+  intros f e ps H Hns. unfold denote. rewrite (lex_complete f e ps H Hns), H, Hns. reflexivity.
 Qed.
 
 (** ---------------------------------------------------------------- raw newlines in quoted literals *)
@@ -546,8 +665,50 @@ Theorem newline_in_quoted_preserved : forall f rest,
   pipeline f [] (["a"; LF; "b"] ++ close f :: rest) = (Ok ["a"; LF; "b"], rest).
 Proof.
   intros f rest H.
-  apply (literal_roundtrip_pieces f [] [PChar "a"; PChar LF; PChar "b"] rest).
+  apply (literal_roundtrip_pieces f [] [PChar "a"; PChar LF; PChar "b"] rest); [|reflexivity].
   destruct H; subst f; reflexivity.
+Qed.
+
+(** A byte order mark inside a literal of any form is preserved (both scanners write it as the escape
+    backslash ufeff since their repair; before, fc copied the three bytes and Go rejected the file:
+    "invalid BOM in the middle of the file" — Go's source-validity checks are not modelled, so that
+    old behaviour is not stated as a refutation). *)
+Theorem bom_in_literal_preserved : forall f x y rest,
+  forallb (fun c => ok_char f c && negb (Ascii.eqb c EF)) x = true ->
+  forallb (fun c => ok_char f c && negb (Ascii.eqb c EF)) y = true ->
+  pipeline f [] (x ++ BOM ++ y ++ close f :: rest) = (Ok (x ++ BOM ++ y), rest).
+Proof.
+  intros f x y rest Hx Hy.
+  pose (ps := map PChar x ++ PBom :: map PChar y).
+  assert (forall z, spell (map PChar z) = z) as Hsp.
+  { induction z as [|c z IH]; [reflexivity|]. unfold spell in *. simpl. rewrite IH. reflexivity. }
+  assert (forall z, meaning [] (map PChar z) = z) as Hme.
+  { induction z as [|c z IH]; [reflexivity|]. unfold meaning in *. simpl. rewrite IH. reflexivity. }
+  assert (spell ps = x ++ BOM ++ y) as E1.
+  { unfold ps, spell. rewrite flat_map_app. simpl. fold (spell (map PChar x)). fold (spell (map PChar y)).
+    rewrite !Hsp. reflexivity. }
+  assert (meaning [] ps = x ++ BOM ++ y) as E2.
+  { unfold ps, meaning. rewrite flat_map_app. simpl.
+    fold (meaning [] (map PChar x)). fold (meaning [] (map PChar y)). rewrite !Hme. reflexivity. }
+  assert (forallb (ok_piece f []) ps = true /\ nosplit ps = true) as [Hok0 Hns0]; [split|].
+  - unfold ps. rewrite forallb_app. simpl.
+    assert (forall z, forallb (fun c => ok_char f c && negb (Ascii.eqb c EF)) z = true ->
+                      forallb (ok_piece f []) (map PChar z) = true) as Hok.
+    { induction z as [|c z IH]; intros Hz; [reflexivity|]. simpl in *.
+      apply andb_prop in Hz. destruct Hz as [Hc Hz]. apply andb_prop in Hc. destruct Hc as [Hc _].
+      rewrite Hc, (IH Hz). reflexivity. }
+    rewrite (Hok x Hx), (Hok y Hy). reflexivity.
+  - unfold ps. clear -Hx Hy.
+    assert (forall z tl, forallb (fun c => ok_char f c && negb (Ascii.eqb c EF)) z = true ->
+                         nosplit tl = true -> nosplit (map PChar z ++ tl) = true) as Hn.
+    { induction z as [|c z IH]; intros tl Hz Htl; [exact Htl|]. simpl in Hz.
+      apply andb_prop in Hz. destruct Hz as [Hc Hz]. apply andb_prop in Hc. destruct Hc as [_ Hc].
+      apply negb_true_iff in Hc. simpl map. simpl app. cbn [nosplit]. rewrite (IH tl Hz Htl), andb_true_r.
+      destruct (map PChar z ++ tl) as [|[] [|[] ?]]; try reflexivity. rewrite Hc. reflexivity. }
+    apply Hn; [exact Hx|]. cbn [nosplit]. simpl andb.
+    rewrite <- (app_nil_r (map PChar y)). apply (Hn y []); [exact Hy|reflexivity].
+  - pose proof (literal_roundtrip_pieces f [] ps rest Hok0 Hns0) as HR.
+    rewrite E1, E2 in HR. rewrite <- !app_assoc in HR. exact HR.
 Qed.
 
 (** Documentation of the defect that was repaired: with the scanner as it was ([scan_string_old],
